@@ -98,4 +98,27 @@ PROPS = {
         "trusted_base": [],
         "assumptions": ["every ast::Stmt built by a harness is mem::forget-ed (drop glue of the recursive AST diverges in CBMC)"],
     },
+    "C15": {
+        "functions_under_contract": [
+            "AcceleratingByteMask::{next, constant} (src/llir/abi.rs)",
+            "Encoded::{apply_xor_mask, null_pad, trim_first_nul, len} (src/io.rs)",
+            "BinWrite::write_cstring, BinRead::read_cstring_blockwise on an in-memory Cursor (src/io.rs)",
+        ],
+        "unverified": [
+            "Shift-JIS transcoding: Encoded::encode / decode / encode_fixed_size call the external crate encoding_rs (assumed correct; "
+            "'unambiguously representable' in the property is a statement about that crate's tables)",
+            "the order in which encode_args / decode_args call the leaves (NUL, furigana append, pad, mask) and the furigana state: "
+            "inside functions neither back end can reach (C12). A change that reorders those calls is NOT detected; a change inside a leaf is",
+            "Pascal length prefix, mission.rs line cipher (wrapping add/sub of the same stream), std.rs / mission.rs fixed 128/64-byte names "
+            "(they call encode_fixed_size)",
+            "diagnostics: that 'unencodable' and 'does not fit' are reported (error paths reach the diagnostics renderer)",
+        ],
+        "bounds": [
+            "byte strings of length <= 6 (<= 4 in the pipeline lemmas), block sizes <= 8 (<= 4 in the pipeline lemmas), every mask "
+            "triple: bounded stand-ins for the Kani harnesses; null_pad and the mask step are also proved unboundedly by Verus",
+        ],
+        "trusted_base": ["stubs: alloc::fmt::format -> String::new(), ErrorReported::new without Backtrace::capture (warning text is not "
+                         "part of any obligation); the real RootEmitter with a no-op sink receives the warnings"],
+        "assumptions": [],
+    },
 }
